@@ -127,6 +127,10 @@ impl<H: Hasher> BatchMerkleProof<H> {
         if indexes.len() != self.leaves.len() {
             return Err(MerkleTreeError::InvalidProof);
         }
+        // a tree of this depth cannot be addressed with usize indexes
+        if self.depth as u32 >= usize::BITS {
+            return Err(MerkleTreeError::InvalidProof);
+        }
 
         let mut buf = [H::Digest::default(); 2];
         let mut v = BTreeMap::new();
@@ -270,11 +274,9 @@ impl<H: Hasher> BatchMerkleProof<H> {
         if indexes.len() != self.leaves.len() {
             return Err(MerkleTreeError::InvalidProof);
         }
-
-        let mut partial_tree_map = BTreeMap::new();
-
-        for (&i, leaf) in indexes.iter().zip(self.leaves.iter()) {
-            partial_tree_map.insert(i + (1 << (self.depth)), *leaf);
+        // a tree of this depth cannot be addressed with usize indexes
+        if self.depth as u32 >= usize::BITS {
+            return Err(MerkleTreeError::InvalidProof);
         }
 
         let mut buf = [H::Digest::default(); 2];
@@ -283,6 +285,12 @@ impl<H: Hasher> BatchMerkleProof<H> {
         // replace odd indexes, offset, and sort in ascending order
         let original_indexes = indexes;
         let index_map = super::map_indexes(indexes, self.depth as usize)?;
+
+        // indexes are known to be in range at this point
+        let mut partial_tree_map = BTreeMap::new();
+        for (&i, leaf) in indexes.iter().zip(self.leaves.iter()) {
+            partial_tree_map.insert(i + (1 << (self.depth)), *leaf);
+        }
         let indexes = super::normalize_indexes(indexes);
         if indexes.len() != self.nodes.len() {
             return Err(MerkleTreeError::InvalidProof);
